@@ -41,7 +41,7 @@ class Gen:
             d = tuple(v for v in d if restrict(v))
         if not d:
             raise Unencodable(tn)
-        v = d[self.ch.choose(len(d), "val:" + path)] if len(d) > 1 else d[0]
+        v = d[self.ch.choose(len(d), "val:" + path, d)] if len(d) > 1 else d[0]
         self.emit(path, tn, v)
         return V.enc_int(tn, v), v
 
